@@ -3,10 +3,20 @@ use crate::{Acc, Args};
 use serde_json::Value;
 
 pub mod c04;
+pub mod c09;
+pub mod c12;
+pub mod c13;
+pub mod c14;
+pub mod sampled;
 
 pub fn run(name: &str, a: &Args, acc: &mut Acc) {
     match name {
         "c04" => c04::run(a, acc),
+        "c09" => c09::run(a, acc),
+        "c12" => c12::run(a, acc),
+        "c13" => c13::run(a, acc),
+        "c14" => c14::run(a, acc),
+        "c08" | "c10" | "c17" => sampled::run(name, a, acc),
         _ => acc.inconclusive.push(format!("unknown lane {name}")),
     }
 }
@@ -16,6 +26,11 @@ pub fn replay(v: &Value) -> Result<Vec<(String, String)>, String> {
     let case = v.get("case").cloned().unwrap_or(Value::Null);
     match lane {
         "c04" => c04::replay(&case),
+        "c09" => c09::replay(&case),
+        "c12" => c12::replay(&case),
+        "c13" => c13::replay(&case),
+        "c14" => c14::replay(&case),
+        "c08" | "c10" | "c17" => sampled::replay(lane, &case),
         _ => Err(format!("unknown lane {lane}")),
     }
 }
